@@ -6,6 +6,7 @@ package hn
 import (
 	"context"
 	"errors"
+	"os"
 	"sync"
 	"sync/atomic"
 
@@ -13,9 +14,11 @@ import (
 )
 
 var (
-	ErrClose   = errors.New("harness: injected close failure")
-	ErrReopen  = errors.New("harness: injected reopen failure")
-	ErrProcess = errors.New("harness: injected process failure")
+	ErrClose  = errors.New("harness: injected close failure")
+	ErrReopen = errors.New("harness: injected reopen failure")
+	// the same failure the way a node reports it whose file has gone: it is ErrReopen and it is os.ErrNotExist
+	ErrReopenMissing error = missingErr{}
+	ErrProcess             = errors.New("harness: injected process failure")
 )
 
 // Call is one Process invocation as seen by the node itself.
@@ -62,6 +65,19 @@ const (
 	Fail                     // return nil, err
 	Replace                  // return a new event with a different payload
 )
+
+type missingErr struct{}
+
+func (missingErr) Error() string   { return "harness: injected reopen failure: file does not exist" }
+func (missingErr) Unwrap() []error { return []error{ErrReopen, os.ErrNotExist} }
+
+// reopenErr picks the spelling of the injected Reopen failure by node.
+func reopenErr(id string, ver int) error {
+	if (len(id)+ver)%2 == 0 {
+		return ErrReopenMissing
+	}
+	return ErrReopen
+}
 
 // Node is a harness node. ID and Ver identify the object in the model.
 type Node struct {
@@ -149,7 +165,7 @@ func (n *Node) Reopen() error {
 	}
 	n.Reopens.Add(1)
 	if n.ReopenFails.Load() {
-		return ErrReopen
+		return reopenErr(n.ID, n.Ver)
 	}
 	return nil
 }
@@ -194,7 +210,7 @@ func (w *Wrapped) Reopen() error {
 		// what Broker.Reopen owes every registered node is a call of *its* Reopen, not of whatever it wraps
 		w.Outer.Reopens.Add(1)
 		if w.Outer.ReopenFails.Load() {
-			return ErrReopen
+			return reopenErr(w.Outer.ID, w.Outer.Ver)
 		}
 	}
 	return w.Inner.Reopen()
